@@ -98,6 +98,11 @@ type c17Case struct {
 	NameLen  int     `json:"name_len"`
 	Kind     int     `json:"kind"`
 	Rewrite  int     `json:"rewrite"` // 0: fresh names; k>0: cycle through k name sets
+	// TailCounter: the part of a name that distinguishes one transaction from the next is its
+	// LAST eight bytes, behind padding (refs/r0/xxxx...00000017) instead of in front of it
+	// (refs/r0/00000017xxxx...): all names of the workload then share a prefix of NameLen-8
+	// bytes, which the format's key prefix compression removes when tables are merged
+	TailCounter bool `json:"tail_counter,omitempty"`
 	IsVector bool    `json:"is_vector,omitempty"`
 }
 
@@ -146,10 +151,37 @@ func genC17(t *rapid.T) c17Case {
 	c.NameLen = rapid.IntRange(12, 60).Draw(t, "nameLen")
 	c.Kind = rapid.SampledFrom([]int{gen.KVal, gen.KPeeled, gen.KSym, gen.KDel}).Draw(t, "kind")
 	c.Rewrite = rapid.SampledFrom([]int{0, 0, 1, 2, 5, 50}).Draw(t, "rewrite")
+	if rapid.IntRange(0, 2).Draw(t, "tailCounter") == 0 {
+		// as long as a record still fits an empty block of the drawn size
+		maxLen := c.Cfg.EffBlockSize() - 120 - 2*c.Cfg.HashSize()
+		if maxLen > 250 {
+			maxLen = 250
+		}
+		if maxLen >= 24 {
+			c.TailCounter = true
+			c.NameLen = rapid.IntRange(20, maxLen).Draw(t, "nameLenTail")
+			if rapid.Bool().Draw(t, "tailRefsOnly") {
+				c.LogsPer = 0
+				if c.RefsPer == 0 {
+					c.RefsPer = 1
+				}
+			}
+			if c.N > 150 {
+				c.N = 8 + c.N%143
+			}
+		}
+	}
 	return c
 }
 
-func padName(prefix string, n, length int) string {
+func padName(prefix string, n, length int, tail bool) string {
+	if tail {
+		s := prefix
+		for len(s) < length-8 {
+			s += "x"
+		}
+		return s + fmt.Sprintf("%08d", n)
+	}
 	s := fmt.Sprintf("%s%08d", prefix, n)
 	for len(s) < length {
 		s += "x"
@@ -248,7 +280,7 @@ func propC17(c c17Case, o *Obs) error {
 			min = st.NextUpdateIndex()
 			w.SetLimits(min, min)
 			for j := 0; j < c.RefsPer; j++ {
-				r := gen.Ref{Name: Str(padName(fmt.Sprintf("refs/r%d/", j), set, c.NameLen)), Idx: min, Kind: c.Kind}
+				r := gen.Ref{Name: Str(padName(fmt.Sprintf("refs/r%d/", j), set, c.NameLen, c.TailCounter)), Idx: min, Kind: c.Kind}
 				switch c.Kind {
 				case gen.KVal:
 					r.Val = val
@@ -262,7 +294,7 @@ func propC17(c c17Case, o *Obs) error {
 				}
 			}
 			for j := 0; j < c.LogsPer; j++ {
-				l := gen.Log{Name: Str(padName(fmt.Sprintf("refs/l%d/", j), set, c.NameLen)), Idx: min, Old: val, New: val, Who: "w", Email: "e", Time: 7, Msg: "m\n"}
+				l := gen.Log{Name: Str(padName(fmt.Sprintf("refs/l%d/", j), set, c.NameLen, c.TailCounter)), Idx: min, Old: val, New: val, Who: "w", Email: "e", Time: 7, Msg: "m\n"}
 				if err := w.AddLog(l.Record()); err != nil {
 					return err
 				}
@@ -328,6 +360,7 @@ func propC17(c c17Case, o *Obs) error {
 	o.ClassIf(c.N >= 1500, "N>=1500")
 	o.ClassIf(c.Rewrite > 0, "rewritten-names")
 	o.ClassIf(c.LogsPer > 0, "with-logs")
+	o.ClassIf(c.TailCounter, "names-share-all-but-the-last-8-bytes")
 	o.Count("adds", c.N)
 	o.Nontrivial = c.N >= 64 && sameSize
 	return nil
@@ -360,6 +393,9 @@ func TestC17(t *testing.T) {
 func c17Shape(c c17Case, n int) string {
 	if c.LogsPer > 0 {
 		return "with-logs"
+	}
+	if c.TailCounter {
+		return "refs-sharing-a-long-prefix"
 	}
 	return "refs-only"
 }
